@@ -342,4 +342,77 @@ Section Remove.
       + destruct (B7 PK_aset h vs1 cs1 (length vs1) c' HP1 ltac:(lia) Wc') as [Hl' Hf'].
         apply (B7 wfn_inode_intro); auto. unf. lia.
   Qed.
+
+  (* ---------------------------------------------------------------- replace_value *)
+  Lemma PK_aset_val : forall h (vs : list elt) cs i x, PK h vs cs -> i < length vs -> PK h (aset vs i x) cs.
+  Proof. intros h vs cs i x [Hl Hf] Hi. split; auto. rewrite length_aset; lia. Qed.
+
+  Lemma replace_value_spec : forall h vs cs i, PK h vs cs -> i < length vs -> asc (elements (Inode vs cs)) ->
+    match replace_value dflt L I h (Inode vs cs) i with
+    | None => can_remove_from L I (nth i cs dnode) = false /\ can_remove_from L I (nth (S i) cs dnode) = false
+    | Some (out, n') =>
+      out = nth i vs dflt /\
+      exists vs' cs' l1 l2, n' = Inode vs' cs' /\ PK h vs' cs' /\ length vs' = length vs /\
+        elements (Inode vs cs) = l1 ++ out :: l2 /\ elements n' = l1 ++ l2 /\
+        (((rank (nth i vs' dflt) < rank out)%Z /\ S (pos n' [i]) = length l1) \/
+         ((rank out < rank (nth i vs' dflt))%Z /\ pos n' [i] = length l1))
+    end.
+  Proof.
+    intros h vs cs i HP Hi Hasc.
+    pose proof (B7 PK_child h vs cs i HP ltac:(lia)) as Wl.
+    pose proof (B7 PK_child h vs cs (S i) HP ltac:(lia)) as Wr.
+    assert (Hlcs : length cs = S (length vs)) by (destruct HP; assumption).
+    unfold replace_value. unfold child. cbn [children vals]. rewrite !Nat.add_1_r.
+    destruct (negb (can_remove_from L I (nth i cs dnode)) && negb (can_remove_from L I (nth (S i) cs dnode))) eqn:En.
+    { apply andb_true_iff in En as [E1 E2]. apply negb_true_iff in E1, E2. auto. }
+    assert (Hcan : min_vals L I (nth i cs dnode) < n_vals (nth i cs dnode) \/
+                   min_vals L I (nth (S i) cs dnode) < n_vals (nth (S i) cs dnode)).
+    { apply andb_false_iff in En as [E|E]; apply negb_false_iff in E; apply can_remove_true in E; auto. }
+    destruct (wfn_same_kind h _ _ Wl Wr) as [Hk _].
+    pose proof (wfn_bounds h _ Wl) as Bl. pose proof (wfn_bounds h _ Wr) as Br.
+    pose proof (B7 elements_split2 vs cs i Hlcs Hi) as Esp.
+    destruct (if n_vals (nth (S i) cs dnode) <? n_vals (nth i cs dnode) then true
+              else if n_vals (nth i cs dnode) <? n_vals (nth (S i) cs dnode) then false else Nat.odd i) eqn:Eum.
+    - (* replace with the predecessor *)
+      assert (Hcl : min_vals L I (nth i cs dnode) < n_vals (nth i cs dnode)).
+      { destruct (n_vals (nth (S i) cs dnode) <? n_vals (nth i cs dnode)) eqn:E1; [apply Nat.ltb_lt in E1; lia|].
+        destruct (n_vals (nth i cs dnode) <? n_vals (nth (S i) cs dnode)) eqn:E2; [discriminate|].
+        apply Nat.ltb_ge in E1, E2. lia. }
+      destruct (remove_max_spec h _ Wl Hcl) as (m & c' & Erm & Eel & Wc'). rewrite Erm.
+      split; [reflexivity|].
+      exists (aset vs i m), (aset cs i c'), (pre vs cs i ++ elements (nth i cs dnode)),
+             (elements (nth (S i) cs dnode) ++ post vs cs (S i)).
+      split; [reflexivity|].
+      split; [apply PK_aset_val; auto; apply (B7 PK_aset); auto; lia|].
+      split; [apply length_aset; lia|].
+      split; [rewrite Esp, <- app_assoc; reflexivity|].
+      split; [rewrite elements_one_l by lia; rewrite Eel, <- !app_assoc; reflexivity|].
+      left. rewrite nth_aset_eq by lia. split.
+      + rewrite Esp, Eel in Hasc. rewrite app_assoc in Hasc. apply (B3 asc_app) in Hasc as (_ & _ & H).
+        apply H; [apply in_or_app; right; apply in_or_app; right; left; reflexivity|left; reflexivity].
+      + rewrite (B7 pos_single_inode). rewrite nth_aset_eq by lia.
+        rewrite (B7 pre_ext vs (aset vs i m) cs (aset cs i c') i) by (apply firstn_aset; lia).
+        rewrite Eel, !app_length. cbn [length]. lia.
+    - (* replace with the successor *)
+      assert (Hcr : min_vals L I (nth (S i) cs dnode) < n_vals (nth (S i) cs dnode)).
+      { destruct (n_vals (nth (S i) cs dnode) <? n_vals (nth i cs dnode)) eqn:E1; [discriminate|].
+        destruct (n_vals (nth i cs dnode) <? n_vals (nth (S i) cs dnode)) eqn:E2; [apply Nat.ltb_lt in E2; lia|].
+        apply Nat.ltb_ge in E1, E2. lia. }
+      destruct (remove_min_spec h _ Wr Hcr) as (m & c' & Erm & Eel & Wc'). rewrite Erm.
+      split; [reflexivity|].
+      exists (aset vs i m), (aset cs (S i) c'), (pre vs cs i ++ elements (nth i cs dnode)),
+             (elements (nth (S i) cs dnode) ++ post vs cs (S i)).
+      split; [reflexivity|].
+      split; [apply PK_aset_val; auto; apply (B7 PK_aset); auto; lia|].
+      split; [apply length_aset; lia|].
+      split; [rewrite Esp, <- app_assoc; reflexivity|].
+      split; [rewrite elements_one_r by lia; rewrite Eel, <- !app_assoc; reflexivity|].
+      right. rewrite nth_aset_eq by lia. split.
+      + rewrite Esp, Eel in Hasc. rewrite app_assoc in Hasc. apply (B3 asc_mid) in Hasc as (_ & _ & _ & H & _).
+        apply H. left. reflexivity.
+      + rewrite (B7 pos_single_inode). rewrite (nth_aset_neq cs (S i) i) by lia.
+        rewrite (B7 pre_ext vs (aset vs i m) cs (aset cs (S i) c') i);
+          [|apply firstn_aset; lia|apply (B7 firstn_aset_lt); lia].
+        rewrite !app_length. lia.
+  Qed.
 End Remove.
